@@ -199,8 +199,23 @@ def _impl_key(hdr):
     return w
 
 
+import threading
+_tls = threading.local()
+
+
+class _Cache:
+    """per-thread cache of parsed files (units run in parallel threads; every generation starts from a cleared cache)"""
+    def _d(self):
+        if not hasattr(_tls, "d"): _tls.d = {}
+        return _tls.d
+    def clear(self): self._d().clear()
+    def __contains__(self, k): return k in self._d()
+    def __getitem__(self, k): return self._d()[k]
+    def __setitem__(self, k, v): self._d()[k] = v
+
+
 class SourceFile:
-    _cache = {}
+    _cache = _Cache()
 
     def __init__(self, rel):
         self.rel = rel
